@@ -242,7 +242,7 @@ impl<'a> Token<'a> {
             Cow::Owned(unsafe { String::from_utf8_unchecked(bytes) })
         } else {
             // if there are no encoded characters, we don't need to allocate!
-            self.inner.clone()
+            Cow::Borrowed(&self.inner)
         }
     }
 
